@@ -2,6 +2,8 @@ package main
 
 import (
 	"fmt"
+	"os"
+	"strconv"
 	"time"
 )
 
@@ -82,6 +84,10 @@ var e1Assumptions = []string{
 
 func tierBudget(quick, thorough time.Duration) func(string) time.Duration {
 	return func(t string) time.Duration {
+		// VERIF_TIER_BUDGET_S overrides the wall-clock budget of a tier (used for dry runs of the thorough tier)
+		if v, err := strconv.Atoi(os.Getenv("VERIF_TIER_BUDGET_S")); err == nil && v > 0 {
+			return time.Duration(v) * time.Second
+		}
 		if t == "thorough" {
 			return thorough
 		}
